@@ -120,6 +120,7 @@ type Machine struct {
 	lastFn       *ssa.Function
 	lastFrame    *frame
 	opaqueFmt    int
+	envPicks     int
 	lastTimeCheck int64
 }
 
@@ -236,6 +237,9 @@ func (m *Machine) globalAddr(g *ssa.Global) *Value {
 	// lazily initialise the owning package
 	if g.Pkg != nil {
 		m.ensureInit(g.Pkg)
+		if q, ok := m.globals[g]; ok {
+			return q // may have been replaced by a shared initialisation snapshot
+		}
 	}
 	return p
 }
@@ -263,6 +267,10 @@ func (m *Machine) ensureInit(p *ssa.Package) {
 		return
 	}
 	path := p.Pkg.Path()
+	if sharedInitPkgs[path] {
+		m.sharedInit(p) // model_sharedinit.go
+		return
+	}
 	if noInitPkgs[path] || strings.HasPrefix(path, "runtime/") || strings.HasPrefix(path, "internal/runtime/") ||
 		strings.HasPrefix(path, "google.golang.org/protobuf") || strings.HasPrefix(path, "github.com/aws/aws-sdk-go/aws/endpoints") ||
 		strings.HasPrefix(path, "go.opentelemetry.io") || strings.HasPrefix(path, "golang.org/x/net") ||
